@@ -26,6 +26,9 @@ ASSUMPTIONS = [
     "stand-ins (injected from the props file; the module's own code is untouched) == model with the same stand-ins, on all traces whose "
     "input word of each cycle is in the list of that cycle's FSM state.  Real CRC kernels: C30.  Complete modules with real CRCs and "
     "full-width random data: simulator correspondence + specification monitor",
+    "round trip on the real code (target rt_full): transmitter.source feeds DataPacketReceiver.sink with sink.valid = source.valid & "
+    "source.ready (the receiver sees each word once, when the consumer accepts it); closed-loop transactions with payload lengths "
+    "0..17 (thorough also 31..33, 63..65) and 1021..1024 = MAX_PACKET_SIZE; oracle = C40's specification over the accepted words",
 ]
 TIE_IMPORTS = ("From LunaLib Require Import ReachDep.\n"
                "From LunaModel Require Import Crc DataRx DataRx_proofs RawTx RawTx_proofs.\n")
@@ -96,11 +99,41 @@ def _build_rhr(stub):
     return build
 
 
+def _build_rt():
+    """transmitter -> DataPacketReceiver: the receiver watches the words the transmitter's consumer accepts"""
+    def build():
+        from amaranth import Elaboratable, Module, Signal
+        from luna.gateware.usb.usb3.link import transmitter as T
+        from luna.gateware.usb.usb3.link import data as D
+
+        class Wrap(Elaboratable):
+            def __init__(self):
+                self.tx = T.RawPacketTransmitter(); self.rx = D.DataPacketReceiver()
+                self.hdr = Signal(128); self.rxhdr = Signal(128)
+            def elaborate(self, platform):
+                m = Module()
+                m.submodules.tx = self.tx; m.submodules.rx = self.rx
+                m.d.comb += [self.tx.header.eq(self.hdr), self.rxhdr.eq(self.rx.header),
+                             self.rx.sink.data.eq(self.tx.source.data), self.rx.sink.ctrl.eq(self.tx.source.ctrl),
+                             self.rx.sink.valid.eq(self.tx.source.valid & self.tx.source.ready)]
+                return m
+        w = Wrap(); d = w.tx; r = w.rx
+        ins = [("hdr", w.hdr), ("generate", d.generate), ("d_data", d.data_sink.data), ("d_valid", d.data_sink.valid),
+               ("d_last", d.data_sink.last), ("ready", d.source.ready)]
+        outs = [("valid", d.source.valid), ("data", d.source.data), ("ctrl", d.source.ctrl), ("done", d.done),
+                ("d_ready", d.data_sink.ready),
+                ("s_data", r.source.data), ("s_valid", r.source.valid), ("s_first", r.source.first), ("s_last", r.source.last),
+                ("good", r.packet_good), ("bad", r.packet_bad), ("rx_hdr", w.rxhdr)]
+        return w, ins, outs
+    return build
+
+
 def targets(tier):
     ts = []
     for name, b, kind in [("tx_stub", _build_tx(True), "tx_stub"), ("tx_full", _build_tx(False), "tx_full"),
                           ("rhr_stub", _build_rhr(True), "rhr_stub"), ("rhr_full", _build_rhr(False), "rhr_full")]:
         t = (SplitTarget if kind.startswith("tx") else Target)(name, b); t.params = dict(kind=kind); ts.append(t)
+    t = SplitTarget("rt_full", _build_rt()); t.params = dict(kind="rt_full"); ts.append(t)
     return ts
 
 
@@ -217,7 +250,30 @@ def traces(target, rng, tier):
     n = 10 if tier == "quick" else 80
     if kind.startswith("tx"):
         return _tx_traces(rng, n, kind == "tx_full")
+    if kind == "rt_full":
+        return _rt_traces(rng, tier)
     return _rhr_traces(rng, n)
+
+
+def _rt_traces(rng, tier):
+    """Round trip: data packets through the transmitter into DataPacketReceiver; payload lengths over every tail and
+    at / just below the maximum packet size 1024 (the largest value the receiver's byte counter must hold)."""
+    small = [0, 1, 2, 3, 4, 5, 7, 8, 13] if tier == "quick" else list(range(0, 18)) + [31, 32, 33, 63, 64, 65]
+    big = [1024, 1021] if tier == "quick" else [1021, 1022, 1023, 1024, 1024]
+    out = []
+    for k in range(0, len(small), 3):
+        txs = []
+        for L in small[k:k + 3]:
+            h = _rand_hdr(rng, True, L)
+            txs.append(((h[0], h[1], h[2], h[3] & ~(1 << 25)) if rng.random() < 0.85 else h, _rand_beats(rng, L, True)))
+        if rng.random() < 0.5:
+            txs.insert(rng.randrange(len(txs) + 1), (_rand_hdr(rng, False), []))
+        out.append(_tx_closed_loop(rng, txs, rng.choice([1.0, 0.7, 0.4]), [0, 1, 2]))
+    for L in big:
+        h = _rand_hdr(rng, True, L)
+        txs = [((h[0], h[1], h[2], h[3] & ~(1 << 25)), _rand_beats(rng, L, True)), (_rand_hdr(rng, True, 3), _rand_beats(rng, 3, True))]
+        out.append(_tx_closed_loop(rng, txs, rng.choice([1.0, 0.9, 0.75]), [0, 1]))
+    return out
 
 
 # ---------------------------------------------------------------------------------------------
@@ -298,6 +354,21 @@ def obligations(targets, tier):
                 describe="RawHeaderPacketReceiver (stand-in CRC unit) == model on all traces whose input word of each cycle is in the "
                          "list of that cycle's FSM state (" + ", ".join(f"{n}: {len(ws)}" for n, ws in tab) + "): valid/invalid words, "
                          "good / wrong CRC-16 / wrong CRC-5 fourth words, matching and non-matching expected sequence numbers"))
+        if kind == "rt_full":
+            if tier != "quick":      # (costly on 1024-byte transactions; the transmit side has spec_tx_full in every tier)
+              obs.append(tie.cmon("spec_rt_tx", t, m0="0",
+                                  mon="(fun m i o => rtx_spec_mon crc16_hdr crc32_usb m i (N.land o (N.ones 39)))",
+                                  describe="round trip, transmit side: the wire specification (as for spec_tx_full) on the composed target"))
+            obs.append(tie.cmon("spec_rt_rx", t, m0="1",
+                                mon="(fun m i o => drx_spec_mon crc16_hdr crc32_usb 11 true m (bits o 1 32 + N.shiftl (bits o 33 4) 32 + "
+                                    "N.shiftl (N.land (bits o 0 1) (bits i 166 1)) 36) (N.shiftr o 39))",
+                                describe="round trip, receive side: DataPacketReceiver fed with the words the transmitter's consumer accepts must "
+                                         "produce exactly the events of C40's specification over those words (payload beats with the transmitted "
+                                         "header, then one good/bad) -- payload lengths over every tail and 1021..1024"))
+            obs.append(tie.corr("corr_rt_full", t, mstep="rt_step drx_real_units 11",
+                                m0="(rtx_init drx_real_units, drx_init drx_real_units)",
+                                describe="RawPacketTransmitter -> DataPacketReceiver (real CRC units) vs the composed models"))
+            continue
         if kind.startswith("tx"):
             spec = "crc16_hdr crc32_usb" if kind.endswith("full") else "drx_stub_h16 drx_stub_c32"
             obs.append(tie.cmon(f"spec_{t.name}", t, mon=f"(rtx_spec_mon {spec})", m0="0",
@@ -334,7 +405,9 @@ LEVEL_TEXT = ("Machine-checked proof about code-shaped models of RawPacketTransm
               "transmitted header from the five header words with arbitrary invalid words interleaved (C36_header_roundtrip); the "
               "DataPacketReceiver specification of C40 run over the transmitted words yields beats carrying exactly the payload and then `good` "
               "(C36_data_roundtrip).  (3) The netlists of both modules regenerated from /repo (stand-in CRC units) are proved equal to the "
-              "models on all traces over per-state input alphabets (certified product reachability).")
+              "models on all traces over per-state input alphabets (certified product reachability).  (4) On the real code the round trip is "
+              "exercised end to end: RawPacketTransmitter wired into DataPacketReceiver (target rt_full) with payload lengths over every tail "
+              "and 1021..1024, checked by C40's specification monitor and by correspondence with the composed models.")
 LEVEL_NOTE = ("Trusted: Coq kernel + vm_compute, Amaranth elaboration, nir2coq.py/Netlist.v and harness/C36_split.py (the netlist has a word-level "
               "combinational cycle source.data[27:32] <- crc5(source.data[16:27]) that is acyclic per bit; the offending AssignmentList cell is "
               "split at its assignment boundaries before printing) -- validated each run against pysim.  Netlist ties are for the modules' "
